@@ -1,9 +1,9 @@
 #!/bin/bash
-# tools/run_seeds.sh <Cxx>...: collect each seeded change and run it against its property's quick check
+# tools/run_seeds.sh <name>...: runs /verif/seeded/<name> (name = Cxx or Cxx_2) against its property's quick check
 cd /verif
-for id in "$@"; do
-  tools/collect_seed.sh $id >/dev/null 2>&1
-  r=$(tools/run_mutant.sh seeded/$id $id quick 2>&1)
-  echo "== $id"; echo "$r" | cut -c1-260
-  echo "$r" > seeded/$id/result.txt
+for n in "$@"; do
+  id=${n%%_*}
+  r=$(tools/run_mutant.sh seeded/$n $id quick 2>&1)
+  echo "== $n"; echo "$r" | cut -c1-260
+  echo "$r" > seeded/$n/result.txt
 done
